@@ -193,7 +193,7 @@ func main() {
 	}
 
 	// ---- exploration ----------------------------------------------------------------------------
-	budget := time.Duration(r.Pick(70, 720)) * time.Second
+	budget := time.Duration(r.Pick(90, 780)) * time.Second
 	start := time.Now()
 	deadline := start.Add(budget).UnixMilli()
 	totalExec, totalSteps, totalHB, judged, notReached, faultFree := 0, int64(0), 0, 0, 0, 0
@@ -301,10 +301,12 @@ func main() {
 	runPhase("single-fault/bound0", singles, 0, false, 1)
 	runPhase("no-fault/bound<=1", nofault, 1, false, 1)
 	runPhase("single-fault/bound1", singles, 1, true, 1)
+	// every pair of faults (on different calls) on the default schedule
+	runPhase("fault-pair/bound0", pairs, 0, false, 1)
 	if r.Thorough() {
-		runPhase("fault-pair/bound0", pairs, 0, false, 1)
-		runPhase("single-fault/bound2", singles, 2, true, 4)
 		runPhase("fault-pair/bound1", pairs, 1, true, 1)
+		runPhase("no-fault/bound2", nofault, 2, true, 4)
+		runPhase("single-fault/bound2", singles, 2, true, 8)
 	}
 	if !allComplete {
 		r.SetCapped()
@@ -329,7 +331,7 @@ func main() {
 	r.Set("outcomes", outcomes)
 	r.Set("phases", phases)
 	r.Set("per_statement", reports)
-	r.Set("rule", "per statement of the corpus: fault-free run lists the driver calls (method, arguments, occurrence#) and result sizes; plans = every call x every mode (streamed reads / GraphNames: before any element, after j elements for j = 1..n; other calls: error); every plan on the default schedule and on every schedule with exactly one deviation (quick), two deviations and every pair of faults on the default schedule and with one deviation (thorough, as far as the budget allows: see phases); states = distinct happens-before partial orders summed over plans")
+	r.Set("rule", "per statement of the corpus: a fault-free run lists the driver calls (method, arguments, occurrence#) and result sizes; plans = every call x every mode (streamed reads / GraphNames: before any element, after j elements for j = 1..n; every other call: error); quick: every plan on the default schedule and on every schedule with exactly one deviation, every pair of faults on different calls on the default schedule, the fault-free statement with <= 1 deviation; thorough adds: every plan with two deviations, every pair with one deviation, fault-free with two deviations (as far as the budget allows: see phases); states = distinct happens-before partial orders summed over plans; evaluations = executions in which at least one planned fault fired (the oracle's antecedent)")
 	if b, err := os.ReadFile(filepath.Join(common.Root(), "work/instr/c20/inventory.json")); err == nil {
 		var inv map[string]interface{}
 		if json.Unmarshal(b, &inv) == nil {
